@@ -393,6 +393,7 @@ func newC01(sc *C01Script, o *sim.Outcome) *c01run {
 	// an earlier session between the same long-term keys, recorded by the adversary
 	rc := sc.Cfg
 	rc.SeedA, rc.SeedB = sc.Cfg.SeedA+999983, sc.Cfg.SeedB+999983
+	rc.SkA, rc.SkB = 0, 0 // (the short-public-value exponents are constants: an earlier session must not share D-H keys with this one)
 	rec := newSess(&SessScript{Cfg: rc}, &sim.Outcome{})
 	rec.Handshake(0)
 	rec.Exec(SOp{K: "send", W: 0, L: 5})
